@@ -6,9 +6,19 @@
                       approximation invariant of DESIGN appendix B); decided by exploration with the
                       Coq-evaluated reading (checks/C16.py);
      C16_local_full   one peer, the whole fragment            -- a Definition;
-   proved here: facts about the reading itself (it is a function of script and services; its answer does
-   not depend on the fuel). *)
-From Aqua Require Import Base Json Air SeqSem SeqFrag SeqLocal SeqProofs.
+   proved here:
+     C16_local_partial  one peer, STRAIGHT-LINE scripts (SeqLocal.linear: call with literal target / service /
+                      function and literal or scalar arguments, seq, xor, match, mismatch, fail, null, never):
+                      the executor model (Exec.exec through RunExec.run1, with the real trace handler model)
+                      iterated on the peer -- run, hand every requested answer back, run again -- reaches
+                      quiescence and has requested exactly the calls of the sequential reading, one per round,
+                      in its order, with its argument values.  The key lemma (SeqLocalProofs.exec_lin): one run
+                      whose previous data holds k-1 executed calls and the pending k-th, with the k-th answer
+                      among the call results, replays the k-1, executes the k-th and requests exactly the next
+                      ready call;
+     facts about the reading itself (it is a function of script and services; its answer does not depend on
+     the fuel). *)
+From Aqua Require Import Base Json Air Exec RunExec SeqSem SeqFrag SeqLocal SeqProofs SeqLocalProofs.
 Open Scope N_scope.
 Open Scope list_scope.
 
@@ -17,6 +27,9 @@ Proof. exact seq_eval_fuel_mono. Qed.
 
 Theorem C16_reading_function_of_services : C16_reading_function_of_services_stmt.
 Proof. exact seq_eval_ext. Qed.
+
+Theorem C16_local_partial : forall svc ts ttl, C16_local_linear_stmt svc ts ttl.
+Proof. exact C16_local_linear. Qed.
 
 (* ---- non-vacuity ---- *)
 Definition ex_var (n : string) : var := {| v_name := n; v_pos := 0 |}.
@@ -54,5 +67,23 @@ Example C16_fragment_example :
     (IXor (IPar (ex_call "B" "fail" [] OutNone) INull) INull) = false.
 Proof. vm_compute. repeat split; reflexivity. Qed.
 
+(* the single-peer theorem on a concrete straight-line script: three rounds request the three calls the reading
+   makes (f; the failing call with f's result; the handler), the fourth requests nothing *)
+Definition ex_svc_full (p s f : string) (args : list json) : service_answer :=
+  if String.eqb f "fail" then {| sa_ret_code := 1; sa_text := """boom"""; sa_parsed := Some (JStr "boom") |}
+  else {| sa_ret_code := 0; sa_text := ""; sa_parsed := Some (JArr (JStr (f ++ "@" ++ p) :: args)) |}.
+Definition ex_linear : instr :=
+  ISeq (ex_call "A" "f" [] (OutScalar (ex_var "x")))
+       (IXor (ex_call "A" "fail" [VScalar (ex_var "x")] OutNone)
+             (ex_call "A" "h" [VScalar (ex_var "x")] (OutScalar (ex_var "y")))).
+Example C16_local_example :
+  linear "A" ex_linear = true /\
+  local_rounds ex_svc_full 0 0 4 20 "A" ex_linear empty_data [] =
+  Some (map (fun c => [c])
+            (calls_of (reading ex_svc_full 0 0 everything_known "A" 20 ex_linear))) /\
+  length (calls_of (reading ex_svc_full 0 0 everything_known "A" 20 ex_linear)) = 3%nat.
+Proof. vm_compute. repeat split; reflexivity. Qed.
+
+Print Assumptions C16_local_partial.
 Print Assumptions C16_reading_fuel_monotone.
 Print Assumptions C16_reading_function_of_services.
